@@ -1066,6 +1066,128 @@ func runC07(c *Ctx) {
 		c.ob("C07-R11", fnKey(ad)+"#defaults-applied-at-every-nesting-level", ad.Pos(), rec, "ApplyTypeDefaults fills absent fields of the top-level object only and never comes back to itself for a field whose type is another type definition: validation treats the nested type's defaulted fields as optional, so the request is accepted and the body sees them absent")
 	}
 
+	c.rule("C07-R14", "SIB/EXH: every function of pkg/interpreter that follows a type to the type definition it names (asserts a Type to NamedType and looks the name up in typeDefs) in order to act on nested objects reaches that point through the same wrapper kinds the checker descends into - it (or the helper it recurses through) also has arms for OptionalType, ArrayType and GenericType. A walker that only follows bare names (a 'does this type declare defaults anywhere' shortcut) disagrees with the one that applies them through `T?`, `[T]` and `List[T]`, and the shortcut's answer switches the other off")
+	{
+		wrappers := []string{"OptionalType", "ArrayType", "GenericType"}
+		n := 0
+		for _, fn := range c.srcFuncs(interpPkg) {
+			if fn.Parent() != nil {
+				continue
+			}
+			// follows a name to its definition?
+			follows := false
+			eachInstr(fn, func(_ *ssa.BasicBlock, _ int, ins ssa.Instruction) {
+				lk, ok := ins.(*ssa.Lookup)
+				if !ok || !(loadedFromField(lk.X, "Interpreter", "typeDefs") || loadedFromField(lk.X, "TypeChecker", "typeDefs")) {
+					return
+				}
+				if derivesFrom(lk.Index, func(v ssa.Value) bool {
+					ex, ok := v.(*ssa.Extract)
+					if ok {
+						if ta, ok := ex.Tuple.(*ssa.TypeAssert); ok {
+							return typeIs(ta.AssertedType, astPath, "NamedType")
+						}
+					}
+					if ta, ok := v.(*ssa.TypeAssert); ok {
+						return typeIs(ta.AssertedType, astPath, "NamedType")
+					}
+					return false
+				}) {
+					follows = true
+				}
+			})
+			if !follows {
+				continue
+			}
+			// … and is a walker over field types: the asserted value comes from a field's TypeAnnotation or a Type parameter it recurses on
+			walksFields := false
+			eachInstr(fn, func(_ *ssa.BasicBlock, _ int, ins ssa.Instruction) {
+				if v, ok := ins.(ssa.Value); ok {
+					if _, f, ok := fieldOf(v); ok && f == "TypeAnnotation" {
+						walksFields = true
+					}
+					if fl, ok := v.(*ssa.Field); ok {
+						if st, ok := fl.X.Type().Underlying().(*types.Struct); ok && st.Field(fl.Field).Name() == "TypeAnnotation" {
+							walksFields = true
+						}
+					}
+				}
+			})
+			recursesOnType := false
+			eachCall(fn, func(call ssa.CallInstruction) {
+				if staticFn(call) == fn {
+					recursesOnType = true
+				}
+			})
+			if !walksFields && !recursesOnType {
+				continue
+			}
+			// route-level validation entry points handle one declared type, not a structure: skip those that take a Route
+			takesRoute := false
+			for _, p := range fn.Params {
+				if typeIs(derefType(p.Type()), astPath, "Route") || typeIs(derefType(p.Type()), interpPath, "Request") {
+					takesRoute = true
+				}
+			}
+			if takesRoute {
+				continue
+			}
+			// only walkers that running code calls (a function with no caller but itself decides nothing)
+			called := false
+			for _, rel := range c.modulePkgs() {
+				for _, g := range c.srcFuncs(rel) {
+					if topParent(g) == fn {
+						continue
+					}
+					eachCall(g, func(call ssa.CallInstruction) {
+						if staticFn(call) == fn {
+							called = true
+						}
+					})
+				}
+			}
+			if !called {
+				c.info("C07-R14", fnKey(fn)+"#not-called", fn.Pos(), "a type-structure walker without callers in non-test code: not judged")
+				continue
+			}
+			n++
+			have := map[string]bool{}
+			var scan func(f *ssa.Function, d int, seen map[*ssa.Function]bool)
+			scan = func(f *ssa.Function, d int, seen map[*ssa.Function]bool) {
+				if f == nil || seen[f] || d > 2 || len(f.Blocks) == 0 {
+					return
+				}
+				seen[f] = true
+				eachInstr(f, func(_ *ssa.BasicBlock, _ int, ins ssa.Instruction) {
+					if ta, ok := ins.(*ssa.TypeAssert); ok {
+						if nt := namedOf(ta.AssertedType); nt != nil {
+							have[nt.Obj().Name()] = true
+						}
+					}
+					if call, ok := ins.(ssa.CallInstruction); ok {
+						if sf := staticFn(call); sf != nil && sf.Pkg == fn.Pkg {
+							// helpers that are handed a Type
+							for i := 0; i < sf.Signature.Params().Len(); i++ {
+								if typeIs(sf.Signature.Params().At(i).Type(), astPath, "Type") {
+									scan(sf, d+1, seen)
+								}
+							}
+						}
+					}
+				})
+			}
+			scan(fn, 0, map[*ssa.Function]bool{})
+			var missing []string
+			for _, w := range wrappers {
+				if !have[w] {
+					missing = append(missing, w)
+				}
+			}
+			c.ob("C07-R14", fnKey(fn)+"#follows-names-through-every-wrapper-kind", fn.Pos(), len(missing) == 0, "this function follows a field's type to the type definition it names but only for bare names - it has no arm for "+strings.Join(missing, ", ")+": a nested type reached through `T?`, `[T]` or `List[T]` is invisible to it, while the validator and the default-applier do go through those")
+		}
+		c.Sites["C07-R14#type-structure-walkers"] = n
+	}
+
 	c.rule("C07-R12", "MEMO: where the validators (ValidateObjectAgainstTypeDef, CheckType, ApplyTypeDefaults and what they call in pkg/interpreter) remember something in storage that outlives the request (a map or sync.Map held in a TypeChecker/Interpreter field), the key covers what the remembered value was computed from: a value computed from a type definition's Fields is never filed under the definition's Name alone - two definitions with one Name coexist (`import { User as BillingUser }` keeps the original Name), and whichever is validated first would decide how the other's fields are checked")
 	{
 		roots := []*ssa.Function{c.fn(interpPkg, "TypeChecker.ValidateObjectAgainstTypeDef"), c.fn(interpPkg, "TypeChecker.CheckType"), c.fn(interpPkg, "Interpreter.ApplyTypeDefaults")}
